@@ -6,8 +6,9 @@ What must happen is decided by TLC from the recorded trace (spec/ConnTrace.tla).
 import random
 
 SYNC_OPS = ["declare", "bind", "unbind", "purge", "delete", "exdeclare", "exdelete", "exbind",
-            "exunbind", "qos", "recover", "select", "get"]
-NOWAIT_OPS = ["declare_nowait", "bind_nowait", "purge_nowait", "delete_nowait", "select_nowait"]
+            "exunbind", "qos", "recover", "select", "get", "declare_passive", "exdeclare_passive"]
+NOWAIT_OPS = ["declare_nowait", "bind_nowait", "purge_nowait", "delete_nowait", "select_nowait",
+              "exdeclare_nowait", "exdelete_nowait", "exbind_nowait", "exunbind_nowait"]
 NAMES = ["A", "B", "C", "D", "E", "F"]
 
 
@@ -78,7 +79,10 @@ def rpc(rng, i):
                 mid += 1
                 ln = rng.choice([0, 1, 7, 300])
                 steps.append({"do": "getscript", "ch": ch, "mid": mid, "len": ln, "chunks": partition(rng, ln)})
-            steps.append(dict(op(h, o, q="q%d" % rng.randrange(9)), **{"async": True}))
+            extra = {"async": True}
+            if o in ("purge", "delete") and rng.random() < 0.4:
+                extra["via"] = "queue"      # through the Queue wrapper (nowait declare first)
+            steps.append(dict(op(h, o, q="q%d" % rng.randrange(9)), **extra))
             held.append((h, ch))
         rng.shuffle(held)
         if rng.random() < 0.5:
@@ -377,6 +381,56 @@ def listener_cross(rng, i):
     steps.append(op("A", "qos"))
     steps.append({"do": "closeconn"})
     return {"kind": "listener-cross", "cfg": {}, "steps": steps}
+
+
+def listener_split(rng, i):
+    """A returned message arrives frame by frame while the channel's return listener is registered,
+    replaced or dropped BETWEEN the frames (each listener operation is processed by the I/O thread
+    before the next frame is sent): the message goes to whoever listens when it is complete, nobody
+    else is disturbed."""
+    steps, ids = opens(2, rng.sample(range(1, 20), 2))
+    mid = 1000 * (i % 2000) + 700
+    nl = 0
+    cur = None
+    names = []
+
+    def act():
+        nonlocal nl, cur
+        r = rng.random()
+        if r < 0.45:
+            nl += 1
+            cur = "R%d" % nl
+            names.append(cur)
+            steps.extend([{"do": "mark"}, {"do": "listen", "h": "A", "what": "returns", "as": cur},
+                          {"do": "await", "ev": "chanmsg", "n": 1}, {"do": "sync"}])
+        elif r < 0.6 and cur:
+            steps.extend([{"do": "dropl", "l": cur}])
+            cur = None
+
+    if rng.random() < 0.4:
+        act()
+    for _ in range(rng.randrange(1, 3)):
+        mid += 1
+        chunks = rng.choice([[], [5], [2, 3], [1, 1, 4]])
+        ln = sum(chunks)
+        steps.append(srv({"k": "return_m", "ch": ids["A"], "mid": mid, "len": ln, "code": 312, "text": "NO_ROUTE"}))
+        steps.append({"do": "sync"})
+        act()
+        steps.append(srv({"k": "header", "ch": ids["A"], "mid": mid, "size": ln}))
+        steps.append({"do": "sync"})
+        for c in chunks:
+            act()
+            steps.append(srv({"k": "body", "ch": ids["A"], "mid": mid, "len": c}))
+            steps.append({"do": "sync"})
+        if rng.random() < 0.5:
+            steps.append(op("B", "qos"))
+    steps.append({"do": "sync"})
+    if cur:
+        steps.append({"do": "drain", "l": cur})
+    steps.append(op("A", "qos"))
+    steps.append(op("B", "qos"))
+    steps.append({"do": "closeconn"})
+    return {"kind": "listener-split", "cfg": {}, "steps": steps}
 
 
 # --------------------------------------------------------------------------- C08 / C09
@@ -853,7 +907,7 @@ def batches(rng, maxlen, bases, reps=1):
     return res
 
 
-FAMILIES = {"mixed": mixed, "pubflags": pubflags, "backlog": backlog, "hb_silence": hb_silence, "listener_cross": listener_cross, "close_slow": close_slow, "consumer_drop": consumer_drop, "rpc": rpc, "content": content, "consumer": consumer, "listeners": listeners,
+FAMILIES = {"listener_split": listener_split, "mixed": mixed, "pubflags": pubflags, "backlog": backlog, "hb_silence": hb_silence, "listener_cross": listener_cross, "close_slow": close_slow, "consumer_drop": consumer_drop, "rpc": rpc, "content": content, "consumer": consumer, "listeners": listeners,
             "connclose": connclose, "chanclose": chanclose}
 
 
